@@ -32,7 +32,8 @@ TEXT = {
     "C20": ("An instrumented key type and comparator closure log the arguments of every comparison during every transition of the K search (tree and list); each logged stored key must be live at the operation's time.", "5"),
 }
 
-NOTE = ("Bounded-exhaustive: holds for every history over the small universes listed in the evidence (keys, times, populations, domains); states merged on 128-bit fingerprints; "
+NOTE = ("Bounded-exhaustive: holds for every history over the small universes listed in the evidence (keys, times, populations, domains); states merged on 128-bit fingerprints of the hook snapshot "
+        "plus the stable raw words of the collection struct (so fields a changed implementation adds still distinguish states); "
         "'live'/'shape' state abstractions cross-checked by 'full' runs; trusted base: the harness's reference models and invariant checkers (mc/src), rustc, the snapshot hooks.")
 
 
@@ -46,11 +47,13 @@ def main():
         sweep = any(s["args"][0] == "sweep" for s in SPECS[p]["quick"])
         tech = []
         if bfs:
-            tech.append("explicit-state BFS to fixpoint over the real implementation (replay-rebuilt states, fingerprint dedup) against a reference model")
+            tech.append("explicit-state BFS to fixpoint over the real implementation (replay-rebuilt states, fingerprint dedup on hook snapshot + raw struct words, unmerged audit suffixes) against a reference model")
         if sweep:
             tech.append("complete enumeration of a finite input/configuration family on the real code")
         if any(s["args"][0] == "family" for s in SPECS[p]["quick"]):
-            tech.append("plus a finite family of long deterministic histories (trees of 9..120 entries) through the same oracles")
+            tech.append("plus finite families of long deterministic histories (trees of 9..120 entries; scale families up to millions of entries) through the same oracles")
+        if p == "C10":
+            tech.append("callback-panic injection incl. Clone/Default of the value type, process outcome only")
         if p == "C18":
             tech.append("exhaustive callback-panic injection per transition (deviation-bounded)")
         checks.append({
